@@ -549,8 +549,11 @@ func main() {
 			last = cur
 		}
 	}()
-	framing(run.Pick(2, 3))
-	nmal := malformed(run.Pick(4, 5))
+	nmal := 0
+	if replayArg() == "" {
+		framing(run.Pick(2, 3))
+		nmal = malformed(run.Pick(4, 5))
+	}
 	progress.Store(-1 << 40)
 
 	bound := run.Pick(2, 3)
@@ -570,6 +573,34 @@ func main() {
 		)
 	}
 	deadline := time.Now().Add(time.Duration(run.Pick(120, 2400)) * time.Second)
+	if rp := replayArg(); rp != "" {
+		var rf struct {
+			Replay struct {
+				Scenario string `json:"scenario"`
+				Choices  []int  `json:"choices"`
+			} `json:"replay"`
+		}
+		b, err := os.ReadFile(rp)
+		if err != nil || json.Unmarshal(b, &rf) != nil {
+			vlib.Fatal("cannot read replay file %s", rp)
+		}
+		for _, sc := range scenarios {
+			if sc.name == rf.Replay.Scenario || "handler: "+sc.name == rf.Replay.Scenario {
+				out, trace := vsched.Replay(sc.build, vsched.Options{MaxSteps: 6000}, rf.Replay.Choices)
+				for _, l := range trace {
+					fmt.Println("  " + l)
+				}
+				fmt.Println("outcome:", out)
+				if out != "ok" {
+					fmt.Printf("VIOLATION property=%s replay=%s\n", run.ID, rp)
+					os.Exit(1)
+				}
+				os.Exit(0)
+			}
+		}
+		vlib.Fatal("scenario %q of the replay file is not part of this tier", rf.Replay.Scenario)
+	}
+
 	execs, points, states := 0, 0, 0
 	var per []map[string]any
 	for _, sc := range scenarios {
@@ -616,4 +647,13 @@ func main() {
 	run.Assumption("header lengths that would allocate gigabytes are excluded from the malformed alphabet")
 	run.Assumption("matching: atomic steps are the code between synchronisation operations and pipe reads/writes; the peer is well-formed (whole frames) but answers in any order, late, twice or never")
 	run.Finish(execs+int(frameEvals.Load()), execs+int(frameNontrivial.Load()), "framing: every message sequence ≤ N of 7 message kinds × both streams × every 1-cut, every fixed chunk size 1..7 and (sequences ≤ 2) every 2-cut chunking; every malformed token string ≤ M over 17 tokens; matching: every schedule with ≤ B deviations of each caller/notifier/canceller/peer scenario; non-trivial = chunked read-back, malformed input or explored schedule")
+}
+
+func replayArg() string {
+	for i, a := range os.Args {
+		if a == "--replay" && i+1 < len(os.Args) {
+			return os.Args[i+1]
+		}
+	}
+	return ""
 }
